@@ -326,12 +326,15 @@ class Env:
         self.vars = {}            # python name -> type
         self.walk_alias = None    # the python name that still denotes the list os.walk handed out
         self.walkobj = None       # the Gallina variable holding that list object
+        self.owned = set()        # settings-typed names bound to copy.deepcopy(..) in this function:
+                                  # the only settings objects whose attributes may be assigned
 
     def copy(self):
         e = Env()
         e.vars = dict(self.vars)
         e.walk_alias = self.walk_alias
         e.walkobj = self.walkobj
+        e.owned = set(self.owned)
         return e
 
 
@@ -466,6 +469,10 @@ class Translator:
                 v, tv = self.expr(e.args[0], env)
                 if tv in ("writer", "documenter") or (isinstance(tv, tuple) and tv[0] == "handle"):
                     fail(e, "copy of an object with identity")
+                if tv == "settings" and d != "copy.deepcopy":
+                    fail(e, "shallow copy of the settings object (it shares the section objects with the "
+                            "original: an attribute assignment on the copy would be seen through the original; "
+                            "settings objects are values in the translation, only copy.deepcopy is one)")
                 return f"(py_copy {v})", tv
             if d == PATHSPEC_CALL:
                 if len(e.args) != 2 or e.keywords or dotted_name(e.args[0]) != PATHSPEC_PATTERN:
@@ -826,6 +833,10 @@ class Translator:
             tr = env.vars[r]
             v, tv = self.expr(value, env)
             if tr == "settings":
+                if r not in env.owned:
+                    fail(st, f"assignment to an attribute of the settings object {r}, which is not a "
+                             "copy.deepcopy made in this function: the caller (main() hands the same object to "
+                             "every input) would see the change, and the translation treats settings as values")
                 path = dotted_name(tg).split(".", 1)[1]
                 if path not in SETTINGS_SETTERS:
                     fail(st, f"assignment to settings attribute {path}")
@@ -878,8 +889,15 @@ class Translator:
         if isinstance(value, ast.Name) and (isinstance(tv, tuple) and tv[0] in ("list", "handle")
                                             or tv in ("writer",)):
             fail(st, "assignment creates a second reference to a mutable object")
+        if isinstance(value, ast.Name) and tv == "settings":
+            fail(st, "assignment creates a second reference to the settings object (an attribute assignment "
+                     "through one name would be seen through the other; use copy.deepcopy)")
         snap = []
         self.bind(env, name, tv, st, walk_top, snap)
+        if (tv == "settings" and isinstance(value, ast.Call) and dotted_name(value.func) == "copy.deepcopy"):
+            env.owned.add(name)
+        else:
+            env.owned.discard(name)
         out.extend(snap)
         out.append(([mangle(name)], v, False))
 
